@@ -9,7 +9,7 @@
    checked on every generated history), [Built] / [AChain] (invariants of every state reached
    by commits and deliveries, C04). *)
 From AM Require Import Base.Prelude Base.Order Crdt.Types Crdt.Interp Crdt.Doc Crdt.Local Crdt.Commit
-  Crdt.InterpProofs Crdt.ClockProofs Crdt.QueueProofs Crdt.CommitProofs Crdt.Txn Crdt.TxnProofs Exec.HistExec.
+  Crdt.InterpProofs Crdt.ClockProofs Crdt.QueueProofs Crdt.CommitProofs Crdt.Txn Crdt.TxnProofs Crdt.UndoProofs Exec.HistExec.
 From AM Require Exec.TxnExec.
 Local Open Scope N_scope.
 
@@ -74,6 +74,17 @@ Theorem C29_integrate_eq_merge : forall (d : adoc) (appl_e cs : list change),
              a_view (a_integrate d) = observe (all_ops (applied e')) /\
              heads_of applied_d = heads_of (applied e').
 Proof. exact integrate_eq_merge. Qed.
+
+(* a defect of the scoped path, in the model of the op set's index columns (Crdt/Txn.v,
+   add_succ_with_undo / reset_top): an increment names every op its scope shows; the counter among
+   them is marked as the register's top op without a look at its visible flag.  When the document
+   has deleted those ops since (they are not visible), the columns say "top, not visible" and
+   reset_top — run by every local op of a scoped transaction — hits its assertion (Panic).
+   Confirmed on the implementation: known finding `panic|txn|call|scoped|increment`. *)
+Theorem C29_scoped_increment_expose_refuted :
+  exists c ins c' us,
+    NoDup (map si_pos ins) /\ (forall i, In i ins -> wf_ins c i) /    add_succ_with_undo c ins = Ok (c', us) /    nth_error (c_top c') 0 = Some true /\ nth_error (c_vis c') 0 = Some false /    reset_top (c_vis c') (c_top c') 0 2 = Panic.
+Proof. exact add_succ_exposes_invisible_refuted. Qed.
 
 (* non-vacuity: actor [2] made two changes; a transaction isolated at the FIRST one (not the
    current heads) is written by the concurrency-level actor, reads a = 1 (not 2), and its put
